@@ -39,6 +39,14 @@ def scenarios(thorough):
                  preemptions=pb, faults=1))
     out.append(S("fail-twice:A,L1 fail,L2", [P("A", "A", T, faultable=True), P("L1", "A", T, after=("A",), faultable=True),
                                             P("L2", "A", T, after=("A", "L1"))], preemptions=0, faults=2))
+    # the same with an argument-less exception (bare assert / raise NotImplementedError in code generation): e.args is empty
+    out.append(S("fail-bare:solo+L1+L2seq", [P("A", "A", T, faultable=True), P("L1", "A", T, after=("A",)), P("L2", "A", T, after=("A", "L1"))],
+                 preemptions=0, faults=1, exc_shape="bare"))
+    out.append(S("fail-bare-twice:A,L1 fail,L2", [P("A", "A", T, faultable=True), P("L1", "A", T, after=("A",), faultable=True),
+                                                 P("L2", "A", T, after=("A", "L1"))], preemptions=0, faults=2, exc_shape="bare"))
+    if thorough:
+        out.append(S("fail-bare:+waiter+L1", [P("A", "A", T, faultable=True), P("W", "A", T), P("L1", "A", T, after=("A", "W"))],
+                     preemptions=pb, faults=1, exc_shape="bare"))
     # --- kills ---
     out.append(S("kill:solo+L1+L2seq", [P("A", "A", T, killable=True), P("L1", "A", T, after=("A",)), P("L2", "A", T, after=("A", "L1"))],
                  preemptions=0, kills=1))
@@ -85,6 +93,10 @@ saved = {}
 if kind == "gen":
     saved["cuo"] = ffcx.compiler.compile_ufl_objects
     def boom(*a, **k): raise RuntimeError("injected code generation failure")
+    ffcx.compiler.compile_ufl_objects = boom
+elif kind == "genbare":
+    saved["cuo"] = ffcx.compiler.compile_ufl_objects
+    def boom(*a, **k): raise AssertionError()
     ffcx.compiler.compile_ufl_objects = boom
 elif kind == "cc":
     os.environ["CC"] = "/bin/false"; before = snap()
@@ -233,7 +245,7 @@ def main():
                 report(chk, rec)
     cov["distinct_outcome_classes"] = nclasses
     # (G)
-    kinds = ["gen", "cc", "badc", "link", "marker"]
+    kinds = ["gen", "genbare", "cc", "badc", "link", "marker"]
     validated = 0
     gres = []
     for kind, r in pmap(global_state_run, kinds, jobs=len(kinds)):
